@@ -525,6 +525,16 @@ class Shim(object):
             return w
         builtins.open = mk_open(_o['builtins_open'])
         io.open = mk_open(_o['io_open'])
+        # shutil asks "fn in os.supports_follow_symlinks / supports_dir_fd / supports_fd": a wrapper must be a member
+        # wherever the function it wraps is, or copystat / rmtree silently take other code paths
+        for name, orig in _o.items():
+            cur = getattr(os, name, None)
+            if cur is None or cur is orig:
+                continue
+            for setname in ('supports_follow_symlinks', 'supports_dir_fd', 'supports_fd', 'supports_effective_ids'):
+                st = getattr(os, setname, None)
+                if st is not None and orig in st:
+                    st.add(cur)
 
 
 def _dirs(rels):
